@@ -28,3 +28,22 @@ Theorem C10_no_terminal_no_interrupt :
     no_terminal C -> snd (solout O C s xold x y sg) = Continue.
 Proof. exact @solout_passive. Qed.
 Print Assumptions C10_no_terminal_no_interrupt.
+
+(* "Everything reported before the stop is identical to what the same run reports without the terminal flag":
+   `clear_terminal C` is C with every terminal count removed.  As long as a callback does not answer Interrupt it
+   computes exactly the same handler state (samples, events, dense segments, bookkeeping) under C and under
+   clear_terminal C -- for ANY number type, event functions, interpolants.  Both handlers are passive up to there
+   (C12_handler_passive, this file), so by the observer-independence theorems of C12 the solver's steps are the same too. *)
+Require Import IVP.proofs.TerminalPrefix.
+Theorem C10_prefix_equals_run_without_terminal_flag :
+  forall (F : Type) (O : Ops F) C s xold x y sg,
+    snd (solout O C s xold x y sg) = Continue ->
+    solout O (clear_terminal C) s xold x y sg = solout O C s xold x y sg.
+Proof. exact @solout_prefix. Qed.
+Print Assumptions C10_prefix_equals_run_without_terminal_flag.
+
+Theorem C10_cleared_configuration_never_interrupts :
+  forall (F : Type) (O : Ops F) C s xold x y sg,
+    snd (solout O (clear_terminal C) s xold x y sg) = Continue.
+Proof. intros. apply solout_passive. apply clear_no_terminal. Qed.
+Print Assumptions C10_cleared_configuration_never_interrupts.
